@@ -289,7 +289,7 @@ func cryptoSuccessReturns(fn *ssa.Function) []*ssa.Return {
 		// a return whose last result is a non-nil error constant/value is the failure path
 		if n := len(r.Results); n >= 2 {
 			if k, isK := r.Results[n-1].(*ssa.Const); !isK || k.Value != nil {
-				if isErrorType(r.Results[n-1]) {
+				if isErrorType(r.Results[n-1]) && errDefinitelySet(r.Results[n-1], b) {
 					continue
 				}
 			}
@@ -297,6 +297,61 @@ func cryptoSuccessReturns(fn *ssa.Function) []*ssa.Return {
 		out = append(out, r)
 	}
 	return out
+}
+
+// errDefinitelySet: the error value returned from block b is known to be
+// non-nil — it is freshly constructed (errors.New, fmt.Errorf, a MakeInterface
+// of a concrete error) or b is only reached through the true arm of
+// `err != nil` on that value. A forwarded callee error (`return f()`) is not:
+// that return is also a success path.
+func errDefinitelySet(v ssa.Value, b *ssa.BasicBlock) bool {
+	switch x := v.(type) {
+	case *ssa.MakeInterface:
+		return true
+	case *ssa.Call:
+		if f := x.Common().StaticCallee(); f != nil {
+			switch f.String() {
+			case "errors.New", "fmt.Errorf":
+				return true
+			}
+		}
+	case *ssa.Global:
+		return true
+	case *ssa.UnOp:
+		if _, ok := x.X.(*ssa.Global); ok {
+			return true // sentinel error variable
+		}
+	}
+	for y := b; y != nil; y = y.Idom() {
+		d := y.Idom()
+		if d == nil || len(y.Preds) != 1 || y.Preds[0] != d {
+			continue
+		}
+		iff, ok := d.Instrs[len(d.Instrs)-1].(*ssa.If)
+		if !ok {
+			continue
+		}
+		bo, ok := iff.Cond.(*ssa.BinOp)
+		if !ok {
+			continue
+		}
+		isNilK := func(k ssa.Value) bool { c, ok := k.(*ssa.Const); return ok && c.Value == nil }
+		var other ssa.Value
+		if isNilK(bo.Y) {
+			other = bo.X
+		} else if isNilK(bo.X) {
+			other = bo.Y
+		} else {
+			continue
+		}
+		if other != v {
+			continue
+		}
+		if (bo.Op == token.NEQ && d.Succs[0] == y) || (bo.Op == token.EQL && d.Succs[1] == y) {
+			return true
+		}
+	}
+	return false
 }
 
 func isErrorType(v ssa.Value) bool {
